@@ -40,6 +40,8 @@ func (c dnsCond) text() string {
 	for i, v := range c.vals {
 		if c.kind == "qname" {
 			parts = append(parts, c.keys[i]+": "+v)
+		} else if c.kind == "ip" && strings.Contains(v, ":") {
+			parts = append(parts, "'"+v+"'")
 		} else {
 			parts = append(parts, v)
 		}
@@ -162,6 +164,36 @@ func (rs *dnsRuleSet) evalResponse(lname string, qtype uint16, from int, ips []n
 	}
 }
 
+// negMerged: two neighbouring single-condition negated rules of the same function
+// and the same target. The rule optimiser merges such neighbours into one negated
+// condition (a recorded defect of the shared routing optimiser, see kernsim's
+// "negated-singleton-merge"); verdicts that differ there get their own class.
+func dnsNegMerged(rules []dnsRule) bool {
+	for i := 1; i < len(rules); i++ {
+		a, b := rules[i-1], rules[i]
+		if len(a.conds) == 1 && len(b.conds) == 1 && a.conds[0].not && b.conds[0].not && a.conds[0].kind == b.conds[0].kind && a.out == b.out {
+			return true
+		}
+	}
+	return false
+}
+
+func (rs *dnsRuleSet) negClass() string {
+	if dnsNegMerged(rs.req) || dnsNegMerged(rs.resp) {
+		return "@negated-neighbours-merged"
+	}
+	return ""
+}
+
+// dnsAvoidNegMerge un-negates the later rule of such a pair (kept with probability 1/40).
+func dnsAvoidNegMerge(T *verifsim.Tape, rules []dnsRule) {
+	for i := 1; i < len(rules); i++ {
+		if dnsNegMerged(rules[i-1:i+1]) && !T.Chance(1, 40) {
+			rules[i].conds[0].not = false
+		}
+	}
+}
+
 // ---- generation -----------------------------------------------------------
 
 func dnsGenQnameCond(T *verifsim.Tape, names []int) dnsCond {
@@ -267,5 +299,7 @@ func dnsGenRuleSet(T *verifsim.Tape, tags []string, names []int, rich bool, allo
 			rs.respFallback = respOuts[T.Choose(len(respOuts))]
 		}
 	}
+	dnsAvoidNegMerge(T, rs.req)
+	dnsAvoidNegMerge(T, rs.resp)
 	return rs
 }
